@@ -273,3 +273,12 @@ def prefilters(P, g, rep, prefix="C14.prefilter"):
         # decided by matching sample lines against the rule (the earlier rule on the rule's shape was withdrawn with the grammar's rewrite)
         import layout_match
         layout_match.check_code_part(g, rep, "%s|code_part-grammar" % prefix)
+    # the rule macro bodies are cut with before they are copied into expansions (only where the tree has and uses one)
+    users = [k for k in P.body if not k.startswith("document::document::") and
+             any("document::document::code_text" in tg for _, _, _, tg in P.call_sites(k))]
+    if users and prefix.startswith("C14"):
+        if g.rules.get("code_text") is None:
+            rep.unprovable("C14.body-text|code_text-grammar", "%s cuts lines with document::code_text, which the grammar reader does not find" % users[0])
+        else:
+            import layout_match
+            layout_match.check_code_text(g, rep, "C14.body-text|code_text-grammar")
